@@ -332,3 +332,82 @@ Definition ext_example_ok : bool :=
   | _, _ => false end.
 Lemma ext_example : ext_example_ok = true.
 Proof. vm_compute. reflexivity. Qed.
+
+(* ---------------------------------------------------------------- the erased tree is an RFC 8259 tree *)
+Lemma forallb_map {A B} (f : A -> B) (p : B -> bool) l : forallb p (map f l) = forallb (fun x => p (f x)) l.
+Proof. induction l as [|x l IH]; [reflexivity|]. cbn. rewrite IH. reflexivity. Qed.
+
+Lemma strip_zeros_wf' ds : wf_xint ds = true -> wf_int (strip_zeros ds) = true.
+Proof.
+  induction ds as [|d [|d1 r] IH]; intros H.
+  - discriminate.
+  - cbn [strip_zeros]. unfold wf_xint in H. apply andb_true_iff in H. destruct H as [H _]. unfold wf_int. rewrite H.
+    destruct (d =? 48); reflexivity.
+  - cbn [strip_zeros]. unfold wf_xint in H. apply andb_true_iff in H. destruct H as [H _].
+    destruct (d =? 48) eqn:E.
+    + apply IH. unfold wf_xint. cbn [all_digits forallb] in H |- *. apply andb_true_iff in H. destruct H as [_ H]. rewrite H. reflexivity.
+    + unfold wf_int. rewrite H, E. reflexivity.
+Qed.
+
+Lemma erase_num_wf' n : wf_xnum n = true -> wf_num (erase_num n) = true.
+Proof.
+  intros H. pose proof (drop_dangling_wf n H) as Hc. unfold erase_num, wf_num. cbn [n_neg n_int n_frac n_exp].
+  unfold wf_cnum in Hc. apply andb_true_iff in Hc. destruct Hc as [Hc He]. apply andb_true_iff in Hc. destruct Hc as [Hi Hf].
+  rewrite (strip_zeros_wf' _ Hi), Hf, He. reflexivity.
+Qed.
+
+Lemma is_hex_hexch d : 0 <= d < 16 -> is_hex (hexch d) = true.
+Proof. intros H. unfold hexch, is_hex, is_digit. destruct (d <? 10) eqn:E; lia. Qed.
+
+Lemma erase_char_wf q ch : wf_xschar q ch = true -> wf_schar (erase_char ch) = true.
+Proof.
+  destruct ch as [b|e|d1 d2 d3 d4]; cbn [wf_xschar erase_char]; intros H; [|reflexivity|exact H].
+  destruct (b <? 32) eqn:E32.
+  - cbn [wf_schar]. rewrite !is_hex_hexch by (try apply Z.mod_pos_bound; try (split; [apply Z.div_pos|apply Z.div_lt_upper_bound]); lia). reflexivity.
+  - destruct (b =? 34) eqn:E34; [reflexivity|]. cbn [wf_schar]. lia.
+Qed.
+Lemma erase_chars_wf q cs : wf_xchars q cs = true -> wf_chars (map erase_char cs) = true.
+Proof.
+  unfold wf_xchars, wf_chars. rewrite forallb_map. rewrite !forallb_forall. intros H ch Hch. apply (erase_char_wf q). apply H. exact Hch.
+Qed.
+Lemma erase_ws_wf w : wf_xws w = true -> all_ws (erase_ws w) = true.
+Proof.
+  induction w as [|i w IH]; [reflexivity|]. cbn [wf_xws forallb]. intros H. apply andb_true_iff in H. destruct H as [Hi Hw].
+  unfold erase_ws. cbn [flat_map]. unfold all_ws. rewrite forallb_app. fold (erase_ws w). fold (all_ws (erase_ws w)). rewrite (IH Hw), andb_true_r.
+  destruct i; [cbn [wf_wsitem] in Hi; cbn; rewrite Hi; reflexivity|reflexivity|reflexivity].
+Qed.
+
+Theorem erase_wf x : wf_xstx x -> wf_stx (erase x).
+Proof.
+  unfold wf_xstx, wf_stx.
+  induction x as [l u|n|q cs|w es tc IH|w ms tc IH] using xstx_ind'; intros Hw; cbn [wf_xstxb erase wf_stxb] in *.
+  - reflexivity.
+  - apply erase_num_wf'. exact Hw.
+  - apply andb_true_iff in Hw. destruct Hw as [_ Hc]. apply (erase_chars_wf q). exact Hc.
+  - apply andb_true_iff in Hw. destruct Hw as [Hw Hes]. apply andb_true_iff in Hw. destruct Hw as [Hw _].
+    rewrite (erase_ws_wf w Hw). cbn [andb]. rewrite forallb_map. rewrite forallb_forall in Hes |- *. rewrite Forall_forall in IH.
+    intros [[a e] b] Hx. specialize (Hes _ Hx). cbn in Hes.
+    apply andb_true_iff in Hes. destruct Hes as [Hes Hb]. apply andb_true_iff in Hes. destruct Hes as [Ha He].
+    rewrite (erase_ws_wf a Ha), (erase_ws_wf b Hb). specialize (IH _ Hx). unfold xel_val in IH. cbn [fst snd] in IH. rewrite (IH He). reflexivity.
+  - apply andb_true_iff in Hw. destruct Hw as [Hw Hms]. apply andb_true_iff in Hw. destruct Hw as [Hw _].
+    rewrite (erase_ws_wf w Hw). cbn [andb]. rewrite forallb_map. rewrite forallb_forall in Hms |- *. rewrite Forall_forall in IH.
+    intros [[[[[a [q k]] b] cw] v] d] Hx. specialize (Hms _ Hx). cbn in Hms.
+    apply andb_true_iff in Hms. destruct Hms as [Hms Hd]. apply andb_true_iff in Hms. destruct Hms as [Hms Hv].
+    apply andb_true_iff in Hms. destruct Hms as [Hms Hc]. apply andb_true_iff in Hms. destruct Hms as [Hms Hb].
+    apply andb_true_iff in Hms. destruct Hms as [Ha Hk]. apply andb_true_iff in Hk. destruct Hk as [_ Hk].
+    rewrite (erase_ws_wf a Ha), (erase_ws_wf b Hb), (erase_ws_wf cw Hc), (erase_ws_wf d Hd), (erase_chars_wf q k Hk).
+    specialize (IH _ Hx). unfold xm_val in IH. cbn [fst snd] in IH. rewrite (IH Hv). reflexivity.
+Qed.
+
+(* the two theorems together *)
+Corollary default_accepts_neutral sb D x lead trail junk t :
+  wf_xstx x -> wf_xws lead = true -> wf_xws trail = true -> neutral x = true ->
+  Z.of_nat (xnest x) < D -> xints_in_range x = true -> xnames_nul_free x = true -> junk_ok junk = true ->
+  tok_new D false false false = Some t ->
+  wf_stx (erase x) /\
+  exists t', parse_ex_cstr sb t (render_xdoc lead x trail ++ junk) = PR t' (Some (value sb (erase x))) /\ err t' = TE_success.
+Proof.
+  intros Hw Hl Ht Hn Hd Hi Hnn Hj Hnew. split; [apply erase_wf; exact Hw|].
+  destruct (default_accepts_ext sb D x lead trail junk t Hw Hl Ht (covered_x_all x) Hd Hi Hnn Hj Hnew) as (t' & E & He & _).
+  exists t'. rewrite <- (default_value_neutral sb x Hw Hn). auto.
+Qed.
